@@ -35,3 +35,14 @@ ENTRY.setdefault("lean_props_extra", []).append(_w.EXTRA_LEAN)
 ENTRY["monitor_sigs"] = list(ENTRY.get("monitor_sigs", ["qbftwire:"])) + ["conswrap:delivered_value_hash_mismatch", "conswrap:delivered_wrong_duty", "conswrap:decide_delivered_twice"]
 ENTRY["trusted_base"] = ENTRY["trusted_base"] + _w.TRUSTED_BASE
 ENTRY["assumptions"] = ENTRY["assumptions"] + _w.ASSUMPTIONS
+
+# Fifth session: the per-instance transport (core/consensus/qbft/transport.go: Broadcast with the value cache, createMsg +
+# signing, self-delivery, ProcessReceives) and msg.go newMsg, the one C05-anchored file no model reached: Model/Transport.lean
+# (on top of Model/QbftWire.lean), theorems Props/C05Transport.lean, stream transport (real transport through hook 8d05130).
+from vlib import snippet_C05transport as _tr
+ENTRY["streams"].append(_tr.STREAM)
+ENTRY["lean_props_extra"].append(_tr.EXTRA_LEAN)
+ENTRY["monitor_sigs"] = ENTRY["monitor_sigs"] + [m for m in _tr.MONITOR_SIGS if m not in ENTRY["monitor_sigs"]]
+ENTRY["trusted_base"] = ENTRY["trusted_base"] + _tr.TRUSTED_BASE
+ENTRY["assumptions"] = ENTRY["assumptions"] + _tr.ASSUMPTIONS
+ENTRY["level_text"] += _tr.LEVEL_TEXT
